@@ -155,7 +155,12 @@ pub fn gen_pairs(r: &mut Rng, max: usize) -> Pairs {
     out
 }
 
-pub const EXTRA_HEADER_NAMES: [&str; 12] = [
+pub const EXTRA_HEADER_NAMES: [&str; 16] = [
+    // pairs in which one name is a proper prefix of the other (the longer continuing with '-' or a digit)
+    "my-header",
+    "x-amz-copy-source",
+    "x-amz-copy-source-if-match",
+    "x-amz-meta",
     "x-amz-meta-a",
     "x-amz-meta-b",
     "x-amz-target",
